@@ -11,13 +11,7 @@ from pysym.harness import run_cases
 
 LEVEL = 'other'
 replay = make_replay('C13')
-NOT_COVERED_BY_F = {
-    'calculate_cis_trans_from_2d': 'flush is guarded by `flag and clean_cache`; the correlation flag <-> writes needs path-sensitive reasoning',
-    'implicify_hydrogens': 'writes happen in two loops (over to_remove and over fixed) before a flush guarded by to_remove',
-    'neutralize': 'works on copies and chooses among them; writes to self are guarded by data-dependent conditions',
-    'standardize_charges': 'pops atoms_order by hand between charge edits (in-place recomputation reasoning)',
-    '__standardize / standardize / canonicalize': 'keep flags are data dependent (rule tables)',
-}
+from checks.fpart import NOT_COVERED_BY_F  # noqa
 FINISH = dict(
     rule='F: one obligation per (mutator, cache key) "not stale at exit", per read site "read key is fresh", per flush site, per declared read-set; '
          'P: one per path of the fix_stereo loop body; B: operation histories, non-trivial = history that changes the structure',
@@ -34,56 +28,8 @@ def main(run):
     from contracts import cache, cachelemmas
     if want(run, 'F'):
       with anchored(run, 'C13/F'):
-        model, a = cache.analyzer()
-        for name, fs in sorted(model.funcs.items()):
-            f = fs[0]
-            if f.key:
-                run.under_contract(f.file.replace(env.REPO + '/', ''), f'{f.cls.__name__}.{f.name} [cache key {f.key}]', ast.unparse(f.node))
-        seen_fail = set()
-        for label, meth, consts, pre in cache.MUTATORS:
-            if label in NOT_COVERED_BY_F:
-                continue
-            f = model.lookup(meth)
-            run.under_contract(f.file.replace(env.REPO + '/', ''), f'{f.cls.__name__}.{meth}', ast.unparse(f.node))
-            n0 = len(a.obligations)
-            fails = a.run_mutator(meth, consts=consts, pre_stale_all=pre, label=label)
-            failed_keys = {x.key for x in fails if x.kind == 'exit-stale'}
-            for k in sorted(a.all_keys):
-                ok = k not in failed_keys
-                kk = None
-                if not ok:
-                    fl = next(x for x in fails if x.kind == 'exit-stale' and x.key == k)
-                    kk = run.violation(f'{label}:exit-stale:{k}', f'engine F: after {label} the cached value {k} may be out of date: {fl.detail} ({fl.where})',
-                                       witness={'mutator': label, 'key': k, 'where': fl.where, 'read_set': sorted(a.rs[k][0])}, obligation=f'{label}:exit-coherent:{k}',
-                                       solver_output=repr(fl), found_input=False)
-                run.oblig(f'{label}:exit-coherent:{k}', ok, 'F', 'frames', 0.0, known=(kk == 'known'))
-            for x in fails:
-                if x.kind != 'exit-stale':
-                    kk = run.violation(f'{label}:{x.kind}:{x.key}', f'engine F: inside {label} {x.detail} ({x.where})',
-                                       witness={'mutator': label, 'key': x.key, 'where': x.where}, obligation=f'{label}:{x.kind}:{x.key}', solver_output=repr(x),
-                                       found_input=False)
-                    run.oblig(f'{label}:{x.kind}:{x.key}', False, 'F', 'frames', 0.0, known=(kk == 'known'))
-            for name, ok in a.obligations[n0:]:
-                if ':exit-coherent' not in name:
-                    run.oblig(name, ok, 'F', 'frames', 0.0)
-        for fn_ in ('flush_cache', 'copy'):
-            kk = a.kept_keys(fn_)
-            for flag, allowed in (('keep_sssr', cache.DECLARED['sssr']), ('keep_components', cache.DECLARED['connected_components'])):
-                for k in sorted(kk[flag]):
-                    d = a.rs.get(k, (None,))[0]
-                    ok = d is not None and d <= allowed
-                    t_oblig(run, f'{fn_}({flag}=True)-keeps-only-keys-with-narrow-read-set[{k}]', ok, key=f'kept-key:{fn_}:{flag}:{k}',
-                            what=f'{fn_}({flag}=True) keeps cache key {k} whose read-set {sorted(d) if d else "?"} is not inside {sorted(allowed)}: '
-                                 f'it survives writes it depends on', witness={'key': k, 'derived': sorted(d) if d else None}, engine='F')
-        for k, decl in cache.DECLARED.items():
-            d = a.rs[k][0]
-            t_oblig(run, f'declared-read-set[{k}]', d <= decl, key=f'read-set:{k}',
-                    what=f'cache key {k} (kept by flush_cache/copy keep flags) reads {sorted(d - decl)} outside its declared read-set {sorted(decl)}',
-                    witness={'derived': sorted(d), 'declared': sorted(decl)}, engine='F')
-        run.notes['not_covered_by_F'] = NOT_COVERED_BY_F
-        run.notes['assumed_frame_facts'] = {'order_only': list(cache.ORDER_ONLY), 'labels_preserved': list(cache.LABELS_PRESERVED),
-                                            'store_override': {k: {a_: sorted(b) for a_, b in v.items()} for k, v in cache.STORE_OVERRIDE.items()},
-                                            'ring_family_kept': {k: list(v) for k, v in cache.TOPO_KEEPS.items()}, 'guards': [list(g) for g in cache.GUARDS]}
+        from checks.fpart import run_F
+        run_F(run)
     if want(run, 'T'):
       with anchored(run, 'C13/T'):
         # transaction rollback restores every state slot of the class
